@@ -182,8 +182,14 @@ class Stack:
 
     def _build(self):
         sim, cfg = self.sim, self.cfg
-        timings = sd.Timings(**cfg.get("timings", {}))
+        # cfg["timings"] are the values in force while the system runs. cfg["ctor_timings"] (optional) are the values the
+        # Timings object held while the stack was constructed; they are replaced on that same object before anything
+        # starts (the application adjusts `prot.timings.X = ...` after creating its endpoints, as the library's tests do)
+        ctor = cfg.get("ctor_timings") or {}
+        timings = sd.Timings(**{**cfg.get("timings", {}), **ctor})
         self.prot = prot = sd.ServiceDiscoveryProtocol(GROUP, timings=timings)
+        for name in ctor:
+            setattr(timings, name, cfg.get("timings", {}).get(name, getattr(sd.Timings(), name)))
         self.transport = prot.transport = core.SimTransport(sim, NODE_NAME, NODE_ADDR)
         self.adapter_u = sd.DatagramProtocolAdapter(prot, is_multicast=False)
         self.adapter_m = sd.DatagramProtocolAdapter(prot, is_multicast=True)
@@ -551,6 +557,12 @@ def execute(plan):
                 if key not in alt_rogues:
                     alt_rogues[key] = Rogue((r.addr[0], op["port"]))
                 r = alt_rogues[key]
+            if "src" in op:
+                # any sockaddr (e.g. the 4-tuple of a link-local IPv6 peer with its scope id): its own session counters
+                key = tuple(op["src"])
+                if key not in alt_rogues:
+                    alt_rogues[key] = Rogue(key)
+                r = alt_rogues[key]
             if "sess" in op:
                 flag, sid = op["sess"]
                 flag = bool(flag)
@@ -595,11 +607,18 @@ def execute(plan):
 
             ph = op.get("ph", "io")
             label = (NODE_NAME, "call", idx, f, _j(a))
+            defer = op.get("defer", 0)  # loop iterations after the chosen phase of instant t
             if ph == "io":
-                sim.at(t, "op", (st.ctx, fn, label))
+                if defer:
+                    sim.at(t, "op-deferred", (st.ctx, defer, fn, label))
+                else:
+                    sim.at(t, "op", (st.ctx, fn, label))
             else:
                 mk = sim.loop.call_at if ph == "timer" else sim.loop.call_at_late
-                mk(t, sim._run_op, fn, label, context=st.ctx)
+                if defer:
+                    mk(t, sim._hop, defer, fn, label, context=st.ctx)
+                else:
+                    mk(t, sim._run_op, fn, label, context=st.ctx)
         else:
             raise core.HarnessError(f"unknown op kind {k}")
     sim.run(plan["until"])
